@@ -95,11 +95,15 @@ def classify(unit, js, diags, rc):
         spans = d.get("spans", [])
         low = msg.lower()
         if "resource limit" in low or "rlimit" in low or "timed out" in low or "solver" in low and "unknown" in low:
-            res["status"] = "undecided"
-            res["reason"] = "resource limit: " + msg
             prim = [s for s in spans if s.get("is_primary")] or spans
-            if prim:
-                res["reason"] += " in " + str(unit.fn_at(prim[0]["line_start"]))
+            fid0 = unit.fn_at(prim[0]["line_start"]) if prim else None
+            if fid0 and fid0.endswith("__canary"):
+                # `false` was not derived within the resource limit: the canary is rejected
+                res["failures"].append({"fid": fid0, "label": "canary", "message": msg, "detail": "rlimit",
+                                        "line": prim[0]["line_start"], "source": "", "rendered": ""})
+                continue
+            res["status"] = "undecided"
+            res["reason"] = "resource limit: " + msg + " in " + str(fid0)
             continue
         prim = [s for s in spans if s.get("is_primary")] or spans
         if not prim:
